@@ -2,7 +2,7 @@
 From Coq Require Import List Bool ZArith Lia.
 Import ListNotations.
 From Rosed Require Import Base.Res Base.ListX Base.Str Gem.Segment Model.Util Model.Options Model.Editor Model.Ops Check.Select
-     Proofs.StrP Proofs.C10P Proofs.C10Q.
+     Proofs.StrP Proofs.C10P Proofs.C10Q Inst.GoRt gen.GemLines Inst.GoSelLines.
 Open Scope Z_scope.
 
 (* strings.Join after strings.Split is the identity for every non-empty separator *)
@@ -59,3 +59,10 @@ Theorem C10_lines_tail_text : forall sep text a, sep <> [] -> (a < length (split
   zslice text (off sep (split text sep) a) (zlen text) = join sep (skipn a (split text sep)).
 Proof. exact lines_tail_text. Qed.
 Print Assumptions C10_lines_tail_text.
+
+(* LinesFrom and LinesTo as they are in subeditor.go now (translated on every run,
+   gen/GemLines.v) are Lines with the line count / zero as the other bound: the model's selectors *)
+Theorem C10_lines_from_to_are_the_source : forall (C : Classifier) e p,
+  go_LinesFrom e p = lines_from e p /\ go_LinesTo e p = lines_to e p.
+Proof. intros C e p. exact (conj (go_lines_from_eq e p) (go_lines_to_eq e p)). Qed.
+Print Assumptions C10_lines_from_to_are_the_source.
